@@ -166,6 +166,8 @@ func (sgi ShardGroupInfo) TargetShards(mst *MeasurementInfo, ski *ShardKeyInfo, 
 	shards := make([]ShardInfo, 0, len(sgi.Shards))
 	shardKeyAndValue = append(shardKeyAndValue, mst.Name...)
 	for tagGroupIdx := range tagsGroup {
+		// every alternative is looked up with its own key: keep only the measurement name
+		shardKeyAndValue = shardKeyAndValue[:len(mst.Name)]
 		sort.Sort(tagsGroup[tagGroupIdx])
 		i, j := 0, 0
 		for i < len(ski.ShardKey) && j < len(*tagsGroup[tagGroupIdx]) {
@@ -239,11 +241,9 @@ func getConditionTags(condition influxql.Expr, schema *CleanSchema) []*influx.Po
 		case influxql.OR:
 			ltags := getConditionTags(expr.LHS, schema)
 			rtags := getConditionTags(expr.RHS, schema)
-			if ltags == nil {
-				return rtags
-			}
-			if rtags == nil {
-				return ltags
+			if ltags == nil || rtags == nil {
+				// one operand puts no constraint on the tags: rows matching only that operand can be in any shard
+				return nil
 			}
 			return append(ltags, rtags...)
 		case influxql.EQ:
